@@ -172,6 +172,13 @@ def recorder : LeafFn := fun a args kw =>
       else .ok (.tuple [a, .tuple args, .dict kw])
   | _ => .ok (.tuple [a, .tuple args, .dict kw])
 
+/-- the recorder as a python function whose first parameter is CALLED `top` (`def rec(a, *args, **kw)`): a leaf call that also
+carries a keyword named `top` cannot be bound (`rec(1, 3, a=5)`: "got multiple values for argument 'a'") - python's `TypeError`,
+raised before the body runs.  `loop(...)(rec)([1,2], [3,4], a=[5,6])` therefore raises at the first leaf (and returns `[]` on an
+empty container, which makes no leaf call). -/
+def recorderNamed (top : String) : LeafFn := fun a args kw =>
+  if (kw.lookup top).isSome then .error .type else recorder a args kw
+
 /-- `lambda a, *args, **kw: (a, args, kw)` without the raising leaves (used for the library's text helpers:
 the harness applies the library's own leaf function to the recorded leaf calls) -/
 def recorderPure : LeafFn := fun a args kw => .ok (.tuple [a, .tuple args, .dict kw])
